@@ -8,7 +8,7 @@ import z3
 from . import loader, contract as C
 from .engine import State, Outcome, Ctx, Vars, exc_subclass
 from .expr import PathEnd
-from .values import (Sym, SV, SList, SSet, SOpt, FuncRef, ModuleRef, ClassRef, Opaque, Unsupported, TInt, TBool, TStr,
+from .values import (SDict, TDict, Sym, SV, SList, SSet, SOpt, FuncRef, ModuleRef, ClassRef, Opaque, Unsupported, TInt, TBool, TStr,
                      TNet, TNone, TObj, TList, TSet, TOpt, TTuple, TBV, fresh, fresh_name, type_constraints, type_of,
                      to_term, wrap, sort_of, is_concrete, list_from_concrete)
 
@@ -173,8 +173,14 @@ class StmtMixin:
             i = to_term(idx)
             self.emit("safe.index", f"L{node.lineno}", st, z3.And(i >= 0, i < base.n))
             return SList(base.ety, base.n, z3.Store(base.a, i, to_term(v)))
-        if hasattr(self, "sdict_store"):
-            return self.sdict_store(base, idx, v, st, node)
+        if isinstance(base, dict) and not base:
+            ty = self.loop_var_types.get(getattr(node.value, "id", ""))
+            if isinstance(ty, TDict):
+                ks = sort_of(ty.key)
+                base = SDict(ty.key, ty.val, z3.K(ks, z3.BoolVal(False)), z3.K(ks, to_term(v) if False else __import__("pyvc.values", fromlist=["default_term"]).default_term(ty.val)))
+        if isinstance(base, SDict):
+            k = to_term(idx)
+            return SDict(base.kty, base.vty, z3.Store(base.dom, k, z3.BoolVal(True)), z3.Store(base.map, k, to_term(v)), None)
         raise Unsupported(f"subscript store on {base!r}")
 
     def unpack(self, elts, v, st):
@@ -425,6 +431,10 @@ class StmtMixin:
             return ("indexed", v.n, lambda k: wrap(v.ety, v.a[k]))
         if isinstance(v, Iter):
             return v.view
+        if isinstance(v, SDict):
+            if v.keys is None:
+                raise Unsupported("iteration over a dict built in the function")
+            return ("indexed", v.keys.n, lambda k: wrap(v.kty, v.keys.a[k]))
         from .values import BitStr, BitChar
         if isinstance(v, BitStr):
             return ("indexed", z3.IntVal(v.width), lambda k: BitChar(v.w, v.width - 1 - k))
@@ -519,6 +529,8 @@ class StmtMixin:
         return hs
 
     def generalize(self, v):
+        if isinstance(v, dict) and not v:
+            raise Unsupported("empty dict modified in a loop: declare its type in loop_var_types")
         if isinstance(v, list):
             if not v:
                 raise Unsupported("empty concrete list modified in a loop: declare its type in loop_var_types")
@@ -570,10 +582,17 @@ class StmtMixin:
         self.flush_pending(hs, outs)
         body_st = hs.assume(c)
         measure0 = spec.decreases(Ctx(self, body_st, self.entry_state), Vars(body_st.env)) if spec.decreases else None
+        head_env = dict(body_st.env)
         if self.feasible(body_st):
             for o in self.exec_block(node.body, body_st):
                 if o.kind in ("normal", "continue"):
-                    self.emit("inv.step", spec.label, o.state, inv_at(o.state, k + 1))
+                    if spec.hints:
+                        vv = Vars(o.state.env)
+                        vv.head = Vars(head_env)
+                        hs_ = [h(Ctx(self, o.state, self.entry_state), k, vv) for h in spec.hints]
+                        self.emit_with_hints("inv.step", spec.label, o.state, inv_at(o.state, k + 1), hs_)
+                    else:
+                        self.emit("inv.step", spec.label, o.state, inv_at(o.state, k + 1))
                     if spec.decreases:
                         m1 = spec.decreases(Ctx(self, o.state, self.entry_state), Vars(o.state.env))
                         self.emit("decreases", spec.label, o.state, z3.And(to_term(measure0) >= 0, to_term(m1) < to_term(measure0)))
